@@ -7,7 +7,8 @@ abstract file system.
   * `os.path.realpath` of a path in a tree without symbolic links: make it absolute with the working directory, then
     remove `..` lexically (the parent of the root is the root).  The harness creates its trees without links below a
     real path, so this is what the real function computes there (compared on every run);
-  * `os.path.exists` is a predicate `fs` on normalised absolute component lists.
+  * the existence test (`os.path.isfile` since repair 804e3de of /repo, `os.path.exists` before) is a predicate `fs` on normalised
+    absolute component lists; the harness feeds it the regular files of the real temporary tree.
 
 Core Lean only.
 -/
